@@ -270,6 +270,19 @@ func (ck *Check) finish(level string) int {
 			samples = append(samples, d)
 		}
 	}
+	for _, d := range ck.flowObl {
+		if len(samples) < 4 {
+			samples = append(samples, d)
+		}
+	}
+	for _, d := range ck.bounded {
+		if len(samples) < 6 {
+			samples = append(samples, d)
+		}
+	}
+	if samples == nil {
+		samples = []any{}
+	}
 	cov := map[string]any{
 		"obligations":              obligations,
 		"discharged":               discharged,
